@@ -22,6 +22,11 @@ import (
 // ModulePath is the module under analysis.
 const ModulePath = "github.com/mgtv-tech/redis-GunYu"
 
+// Unroll is how often a path may pass through one loop body when rules
+// enumerate paths with inner loops unrolled (2 in the quick tier, 3 in the
+// thorough tier).
+var Unroll = 2
+
 // MinPackages is the number of non-test packages confirmed by hand on the
 // pinned tree; fewer means the loader did not see the program.
 const MinPackages = 30
